@@ -179,7 +179,7 @@ def plan(tier):
 
 
 def shards(tier):
-    out = [dict(s, kind='doc') for s in layers.shards(plan(tier), ('neigh',))]
+    out = [dict(s, kind='doc') for s in layers.shards(plan(tier), ('neigh', 'args'))]
     n = 10 if tier == 'quick' else 14
     for pre in itertools.product('a\n', repeat=4):
         out.append({'kind': 'lines', 'n': n, 'prefix': ''.join(pre)})
